@@ -41,6 +41,13 @@ CHECKS["C16"] = ("Shape.tla (scoped reference shape, occurrence lists) + TLC: re
 CHECKS["C18"] = ("Parse.tla (tokenizer, total parser, printer) + TLC: all strings <=5/6 tokens and <=5/6 characters as state space with invariants Total/RoundTrip; harness enumerates the same strings against the emitted accepted-language table; TraceParse.tla judges recorded parses of mutated long texts (impl->spec)",
          "the parser accepts exactly the specification's language with exactly its ASTs, never panics, and print->parse is the identity, on every enumerated string and every recorded mutated text", "5 C18")
 NOTES = {"C19": SMALL_NOTE, "C17": SMALL_NOTE, "C10": SMALL_NOTE, "C16": SMALL_NOTE, "C18": SMALL_NOTE}
+CHECKS["C06"] = ("SlottedCC.tla MinCost (least fixpoint over the partition's e-node structure, 3 strictly monotone cost functions) + TLC exhaustive; extraction from every represented invocation in every replayed final state compared with it",
+         "extracted terms are represented in the queried invocation, their recomputed cost equals the reported best cost and the specification's minimum, free slots are query arguments or brand-new", "5 C06")
+CHECKS["C05"] = ("SlottedCC.tla state graph replayed; in every final state an 18-pattern / 5-multi-pattern pool is matched and every returned substitution is instantiated (harness representatives) and looked up; fingerprint before/after",
+         "every reported match binds all variables and denotes a represented term, multi-pattern equations hold between the bound classes, matching changes nothing", "5 C05")
+CHECKS["C14"] = ("SlottedCC.tla MinCost for astsize/depth = least fixpoint of make/merge; analysis (min size, min depth) read at every class after every call of every replayed path and compared",
+         "analysis data of every class equals the specification's least fixpoint after every call (min-size, min-depth); constant folding with modify hook: see level_note", "5 C14")
+NOTES_EXTRA = {"C14": CC_NOTE + " Constant-folding analysis (modify hook) is exercised by the rewrite recorder (rw_record) once built; until then only the two slot-independent lattices are covered."}
 PENDING = {}  # filled below for every property without a check yet
 
 man = {
@@ -51,7 +58,7 @@ man = {
    "enable": "rustflags in /verif/harness/.cargo/config.toml: --cfg slotted_egraphs_verif --check-cfg cfg(slotted_egraphs_verif); the harness depends on /repo by path and patches slotted-egraphs-derive to /repo/slotted-egraphs-derive",
    "baseline_off_cmd": "cd /repo && cargo test --workspace --no-fail-fast --offline",
    "source_commits": ["ec9eabe"],
-   "fix_commits": ["c3020f8", "2a38624", "2db9378", "9af976a"],
+   "fix_commits": ["c3020f8", "2a38624", "2db9378", "9af976a", "429dfd3", "20cc4b9"],
    "add_only": True,
  },
  "engines": [
@@ -76,7 +83,7 @@ for p in props:
             "replay_cmd_template": "bin/check --replay {path}",
             "engine": "tlc+replay",
             "level_claimed": {"category": "model_checking", "text": text, "design_ref": "DESIGN.md section " + ref},
-            "level_note": NOTES.get(pid, CC_NOTE),
+            "level_note": NOTES_EXTRA.get(pid, NOTES.get(pid, CC_NOTE)),
             "technique": tech,
         })
     else:
